@@ -455,6 +455,10 @@ def check(ctx):
     ctx.oblige("R-C06.4", "_parse_error formats '{coord}: {msg}'", ok)
     if not ok:
         viol("R-C06.4", px, "CParser._parse_error", pe, "format", "_parse_error no longer formats the message as '<coord>: <msg>'")
+    # whether the `.coord` of the node handed over can be None (a node built without a coordinate), and whether it is the coordinate the reviewed
+    # reference names, is decided by the def-use analysis of C11: a None there makes the message start with 'None: '
+    from . import share
+    share.borrow(ctx, "C11", ("R-C11.6", "R-C11.7"), "R-C06.4", count=10)
     ctx.require_instances("R-C06.4", 30)
 
     # ---- R-C06.5 --------------------------------------------------------------------------
